@@ -3,6 +3,7 @@ package main
 import (
 	"fmt"
 	"go/ast"
+	"go/constant"
 	"go/token"
 	"go/types"
 	"os"
@@ -90,6 +91,84 @@ func checkC07(w *World, r *Report) {
 
 	r.Rule("R07.11", "the word state makes progress: lexStmt un-reads a rune and hands over to lexString only for runes with which lexString's scan consumes at least one rune — otherwise the two states would alternate for ever without advancing (an empty item per round)", 1)
 	r.guard("R07.11", func() { c07WordProgress(w, r) })
+
+	r.Rule("R07.12", "line and column speak of the same lines: the line terminators lexer.lineNumber counts (the constant handed to strings.Count, or the characters a counting loop tests for) are exactly the one Tree.errorf measures the column from (the constant of strings.LastIndex) — otherwise a text with other line ends is given a line beyond its last", 1)
+	r.guard("R07.12", func() {
+		ln := w.SSAFunc(w.Method("parse", "lexer", "lineNumber"))
+		ef := w.SSAFunc(w.Method("parse", "Tree", "errorf"))
+		if ln == nil || ef == nil {
+			panic(undecided{"lexer.lineNumber / Tree.errorf"})
+		}
+		constSets := func(f *ssa.Function, callees ...string) (ISet, bool) {
+			var set ISet
+			found := false
+			for _, b := range f.Blocks {
+				for _, in := range b.Instrs {
+					c, ok := in.(*ssa.Call)
+					if !ok || c.Call.StaticCallee() == nil || len(c.Call.Args) != 2 {
+						continue
+					}
+					for _, name := range callees {
+						if c.Call.StaticCallee().String() != name {
+							continue
+						}
+						k, isK := c.Call.Args[1].(*ssa.Const)
+						if !isK || k.Value == nil {
+							return nil, false
+						}
+						found = true
+						switch k.Value.Kind() {
+						case constant.String:
+							sv := constant.StringVal(k.Value)
+							if len(sv) != 1 {
+								return nil, false
+							}
+							set = set.union(isetOf(int64(sv[0])))
+						case constant.Int:
+							iv, _ := constant.Int64Val(k.Value)
+							set = set.union(isetOf(iv))
+						}
+					}
+				}
+			}
+			return set, found
+		}
+		counted, okC := constSets(ln, "strings.Count", "bytes.Count")
+		if !okC {
+			// a counting loop: the characters for which the count goes up
+			sym := NewSym(w)
+			sym.Expand = true
+			for _, l := range ssaLoops(ln) {
+				for _, in := range l.Header.Instrs {
+					phi, isPhi := in.(*ssa.Phi)
+					if !isPhi || !isIntegerType(phi.Type()) || isRangeIndexPhi(phi) {
+						continue
+					}
+					for _, lt := range l.Latches {
+						bo, isAdd := phiEdge(phi, lt).(*ssa.BinOp)
+						if !isAdd || bo.Op != token.ADD || bo.X != ssa.Value(phi) {
+							continue
+						}
+						cond := sym.PathCond(l.Header, bo.Block(), nil)
+						for _, a := range cond.atoms() {
+							if a.subj == "" {
+								continue
+							}
+							if vals, decided := pcValuesWhen(cond, a.subj); decided && len(vals) > 0 && len(vals) < 8 && !vals.equal(fullISet) {
+								counted, okC = counted.union(vals), true
+							}
+						}
+					}
+				}
+			}
+		}
+		measured, okM := constSets(ef, "strings.LastIndex", "strings.LastIndexByte", "bytes.LastIndex", "bytes.LastIndexByte")
+		if !okC || !okM {
+			panic(undecided{"lineNumber / errorf: the line terminator counted and the one the column is measured from"})
+		}
+		r.Check(counted.equal(measured) && counted.equal(isetOf('\n')), "R07.12", "lineNumber and errorf agree on the line terminator", ln.Pos(), "both "+measured.String(),
+			"the line count goes up at "+counted.String()+" but the column is measured from the last "+measured.String()+": for texts with CR LF (or bare CR) line ends the reported line lies beyond the end of the text")
+	})
 
 	r.Rule("R07.2", "nothing is left running: the lexer goroutine's channel is closed when its state machine ends, and the parser's error exit drains the channel before dropping the lexer", 3)
 	r.guard("R07.2", func() { c07Drain(w, r) })
